@@ -51,6 +51,9 @@ func NewTxGen(w *World, weights Weights) *TxGen {
 	return &TxGen{W: w, Weights: weights, Multisig: map[common.Address][]SignerSpec{}}
 }
 
+// Nonce returns a fresh message text that makes a transaction unique.
+func (g *TxGen) Nonce() string { return g.next() }
+
 func (g *TxGen) next() string {
 	g.nonce++
 	return fmt.Sprintf("n%d", g.nonce)
